@@ -22,6 +22,7 @@ open Sge Sge.Reward Driver
 structure St where
   fixed : Bool := false
   codecFixed : Bool := false
+  promoterFixed : Bool := false
   s : State := init false (fun _ => 0)
 
 def NACCT : Nat := 12
@@ -126,8 +127,9 @@ def stepLine (st : St) (line : String) : St × List String :=
   | [] => (st, [])
   | ["CFG", "fixed", v] => ({ st with fixed := pb v }, [])
   | ["CFG", "codec", v] => ({ st with codecFixed := pb v }, [])
-  | ["N", h] => ({ st with s := { init st.fixed (fun _ => 0) with codecFixed := st.codecFixed } }, [s!"n {h}"])
-  | ["INIT", bal] => ({ st with s := { init st.fixed (fun a => if a < NACCT then parseInt bal else 0) with codecFixed := st.codecFixed } }, [])
+  | ["CFG", "promoter", v] => ({ st with promoterFixed := pb v }, [])
+  | ["N", h] => ({ st with s := { init st.fixed (fun _ => 0) with codecFixed := st.codecFixed, promoterFixed := st.promoterFixed } }, [s!"n {h}"])
+  | ["INIT", bal] => ({ st with s := { init st.fixed (fun a => if a < NACCT then parseInt bal else 0) with codecFixed := st.codecFixed, promoterFixed := st.promoterFixed } }, [])
   | ws =>
     match parseOp ws with
     | none => (st, ["bad-op " ++ line])
